@@ -96,7 +96,8 @@ func drawSeedCfg(st *simrt.Stream, name string, port int) PeerCfg {
 		Name: name, Port: port, Fast: st.Bool(1, 2), Ext: st.Bool(2, 3), DHT: st.Bool(1, 3),
 		MSE: st.Bool(1, 3), Have: func(int) bool { return true }, Advertise: DrawAdvertise(st), Reqq: simrt.Pick(st, -1, 250, 16, 2),
 		MetadataSize: -1, UnchokeAfter: time.Duration(st.Choice(3)) * time.Second,
-		AnswerDelay: func() time.Duration { return time.Duration(st.Choice(40)) * time.Millisecond },
+		AnswerDelay:       func() time.Duration { return time.Duration(st.Choice(40)) * time.Millisecond },
+		ChokeUninterested: st.Bool(1, 2),
 	}
 }
 
@@ -482,11 +483,15 @@ func (e *readerEnv) httpUser(u int, withFaults bool) {
 		}
 		ctx, cancel := context.WithCancel(context.Background())
 		cancelled := false
+		finished := false
 		if withFaults && st.Bool(1, 8) {
 			d := time.Duration(st.Choice(20000)) * time.Millisecond
 			simrt.Fault("http-client-gone")
 			simrt.GoNamed("http-cancel", func() {
 				simrt.Sleep(d)
+				if finished {
+					return
+				}
 				cancelled = true
 				e.gone[u] = time.Now()
 				cancel()
@@ -494,7 +499,6 @@ func (e *readerEnv) httpUser(u int, withFaults bool) {
 		}
 		rec := httptest.NewRecorder()
 		rc.Tracef("user%d: %s %s Range=%q", u, method, req.URL.Path, rangeHdr)
-		finished := false
 		stalled := false
 		simrt.GoNamed("http-watchdog", func() {
 			for e.faultsOn && !finished {
@@ -648,11 +652,15 @@ func (e *readerEnv) fuseUser(u int, withFaults bool) {
 				size := simrt.Pick(st, 4096, 1, 16384, 65536, 131072, 1+st.Choice(200000))
 				ctx, cancel := context.WithCancel(bg)
 				interrupted := false
+				returned := false // (an interrupt that fires after the request has returned concerns nobody)
 				if withFaults && !final && st.Bool(1, 6) {
 					d := time.Duration(st.Choice(5000)) * time.Millisecond
 					simrt.Fault("fuse-request-interrupted")
 					simrt.GoNamed("fuse-interrupt", func() {
 						simrt.Sleep(d)
+						if returned {
+							return
+						}
 						interrupted = true
 						e.gone[key] = time.Now()
 						cancel()
@@ -662,6 +670,7 @@ func (e *readerEnv) fuseUser(u int, withFaults bool) {
 				resp := &fuse.ReadResponse{Data: make([]byte, 0, size)}
 				e.blocked[key] = time.Now()
 				err := h.(fs.HandleReader).Read(ctx, req, resp)
+				returned = true
 				delete(e.blocked, key)
 				delete(e.gone, key)
 				cancel()
